@@ -31,8 +31,42 @@ fn run<T: Decodable + Encodable + PartialEq + std::fmt::Debug>(b: &[u8], summary
         }
     }
 }
-fn sum_txin(i: &TxIn) -> String { format!("{}:{}{}", i.previous_output.vout, i.is_pegin as u8, i.has_issuance() as u8) }
-fn sum_header(h: &BlockHeader) -> String { format!("v{}{}", h.version, if h.is_dynafed() { "D" } else { "P" }) }
+// field-wise fingerprint of a decoded value (length and byte sum of every field, by field NAME); mirrors Extract/RunC01.v
+fn fpb(b: &[u8]) -> String { format!("{}.{}", b.len(), b.iter().fold(0u64, |a, x| (a + *x as u64) % 65521)) }
+fn fpo(o: Option<Vec<u8>>) -> String { o.map(|b| fpb(&b)).unwrap_or_else(|| "-".into()) }
+fn fpstack(l: &[Vec<u8>]) -> String { format!("[{}]", l.iter().map(|b| fpb(b)).collect::<Vec<_>>().join(",")) }
+fn fpval(v: &Value) -> String { match v { Value::Null => "n".into(), Value::Explicit(n) => format!("e{}", n), Value::Confidential(c) => format!("c{}", fpb(&c.serialize())) } }
+fn fpasset(v: &Asset) -> String { match v { Asset::Null => "n".into(), Asset::Explicit(a) => format!("e{}", fpb(&elements::encode::serialize(a))), Asset::Confidential(c) => format!("c{}", fpb(&c.serialize())) } }
+fn fpnonce(v: &Nonce) -> String { match v { Nonce::Null => "n".into(), Nonce::Explicit(b) => format!("e{}", fpb(b)), Nonce::Confidential(c) => format!("c{}", fpb(&c.serialize())) } }
+pub fn sum_txin(i: &TxIn) -> String {
+    let w = &i.witness;
+    format!("{}:{}:{}{}:s{}:q{}:i{}/{}/{}/{}:w{}/{}/{}/{}", fpb(&i.previous_output.txid.to_byte_array()), i.previous_output.vout, i.is_pegin as u8, i.has_issuance() as u8,
+        fpb(i.script_sig.as_bytes()), i.sequence.0,
+        fpb(i.asset_issuance.asset_blinding_nonce.as_ref()), fpb(&i.asset_issuance.asset_entropy), fpval(&i.asset_issuance.amount), fpval(&i.asset_issuance.inflation_keys),
+        fpo(w.amount_rangeproof.as_ref().map(|p| p.serialize())), fpo(w.inflation_keys_rangeproof.as_ref().map(|p| p.serialize())), fpstack(&w.script_witness), fpstack(&w.pegin_witness))
+}
+pub fn sum_txout(o: &TxOut) -> String {
+    format!("a{}:v{}:n{}:s{}:w{}/{}", fpasset(&o.asset), fpval(&o.value), fpnonce(&o.nonce), fpb(o.script_pubkey.as_bytes()),
+        fpo(o.witness.surjection_proof.as_ref().map(|p| p.serialize())), fpo(o.witness.rangeproof.as_ref().map(|p| p.serialize())))
+}
+pub fn sum_tx(t: &Transaction) -> String {
+    format!("w{}/v{}/l{}/I{}/O{}", t.has_witness() as u8, t.version, t.lock_time.to_consensus_u32(),
+        t.input.iter().map(sum_txin).collect::<Vec<_>>().join(","), t.output.iter().map(sum_txout).collect::<Vec<_>>().join(","))
+}
+fn sum_params(p: &dynafed::Params) -> String {
+    match p {
+        dynafed::Params::Null => "N".into(),
+        dynafed::Params::Compact { signblockscript, signblock_witness_limit, elided_root } => format!("C{}/{}/{}", fpb(signblockscript.as_bytes()), signblock_witness_limit, fpb(&elided_root.to_byte_array())),
+        dynafed::Params::Full(_) => format!("F{}/{}/{}/{}/{}", fpb(p.signblockscript().unwrap().as_bytes()), p.signblock_witness_limit().unwrap(), fpb(p.fedpeg_program().unwrap().as_bytes()), fpb(p.fedpegscript().unwrap()), fpstack(p.extension_space().unwrap())),
+    }
+}
+pub fn sum_header(h: &BlockHeader) -> String {
+    let ext = match &h.ext {
+        elements::BlockExtData::Proof { challenge, solution } => format!("P{}/{}", fpb(challenge.as_bytes()), fpb(solution.as_bytes())),
+        elements::BlockExtData::Dynafed { current, proposed, signblock_witness } => format!("D{}|{}|{}", sum_params(current), sum_params(proposed), fpstack(signblock_witness)),
+    };
+    format!("v{}:p{}:m{}:t{}:h{}:{}", h.version, fpb(&h.prev_blockhash.to_byte_array()), fpb(&h.merkle_root.to_byte_array()), h.time, h.height, ext)
+}
 
 pub fn eval(case: &str) -> Out {
     let w: Vec<&str> = case.split(' ').collect();
@@ -51,15 +85,15 @@ pub fn eval(case: &str) -> Out {
 fn eval_ty(ty: &str, b: &[u8]) -> Out {
     let b = b.to_vec();
     match ty {
-        "tx" => run::<Transaction>(&b, |t| format!("w{}/{}/{}", t.has_witness() as u8, t.output.len(), t.input.iter().map(sum_txin).collect::<Vec<_>>().join(","))),
+        "tx" => run::<Transaction>(&b, sum_tx),
         "txin" => run::<TxIn>(&b, sum_txin),
-        "txout" => run::<TxOut>(&b, |_| "-".into()),
+        "txout" => run::<TxOut>(&b, sum_txout),
         "header" => run::<BlockHeader>(&b, sum_header),
-        "block" => run::<Block>(&b, |bl| format!("{}/{}", sum_header(&bl.header), bl.txdata.len())),
-        "params" => run::<dynafed::Params>(&b, |p| match p { dynafed::Params::Null => "0".into(), dynafed::Params::Compact { .. } => "1".into(), dynafed::Params::Full(_) => "2".into() }),
-        "value" => run::<Value>(&b, |_| "-".into()),
-        "asset" => run::<Asset>(&b, |_| "-".into()),
-        "nonce" => run::<Nonce>(&b, |_| "-".into()),
+        "block" => run::<Block>(&b, |bl| format!("{}/T{}", sum_header(&bl.header), bl.txdata.iter().map(sum_tx).collect::<Vec<_>>().join(";"))),
+        "params" => run::<dynafed::Params>(&b, sum_params),
+        "value" => run::<Value>(&b, fpval),
+        "asset" => run::<Asset>(&b, fpasset),
+        "nonce" => run::<Nonce>(&b, fpnonce),
         _ => Out::ok("harnesserr type".into()),
     }
 }
